@@ -80,10 +80,13 @@ CfgScalar(cw, coordIsInt, tid, v, pos) ==
 
 LargeV == 4            \* value set 4 of the types in LargeTypes has more than 256 cells (block-wise readers, long payloads)
 LargeTypes == {3, 4, 6, 7}
+EmptyV == 5            \* value set 5 of the types in EmptyTypes has NO cells (a zero extent / an empty array)
+EmptyTypes == {1, 3, 8}
 Sizes(n, tid, v) == IF v = LargeV /\ tid \in LargeTypes THEN (IF n = 2 THEN <<17, 19>> ELSE <<7, 6, 8>>)
+                    ELSE IF v = EmptyV /\ tid \in EmptyTypes THEN [i \in 1..n |-> IF i = 1 THEN 0 ELSE 2]
                     ELSE [i \in 1..n |-> 1 + (Rnd(tid, v, 50 + i) % 2) + (IF i = 1 THEN v % 2 ELSE 0)]     \* extents 1..3
 Product(s) == IF Len(s) = 0 THEN 1 ELSE IF Len(s) = 1 THEN s[1] ELSE IF Len(s) = 2 THEN s[1] * s[2] ELSE s[1] * s[2] * s[3]
-Pow2Ceil(x) == IF x <= 1 THEN 1 ELSE IF x <= 2 THEN 2 ELSE 4
+Pow2Ceil(x) == IF x <= 1 THEN 1 ELSE IF x <= 2 THEN 2 ELSE 4      \* (round_pow2(0) = 1 as coded)
 StorageCount(kind, s) == IF kind = "strided" THEN Product(s)
                          ELSE LET mx == IF Len(s) = 1 THEN s[1] ELSE IF s[1] >= s[2] THEN s[1] ELSE s[2] IN
                               IF Len(s) = 1 THEN Pow2Ceil(mx) ELSE Pow2Ceil(mx) * Pow2Ceil(mx)
@@ -112,6 +115,6 @@ Fill(T, tid, v, pos, count) ==     \* count: cells the innermost array must have
                              \o Flatten([i \in 1..t.m |-> Scalar(t.ow, tid, v, pos * 64 + 40 + i)])]>>
          \o Fill(Tail(T), tid, v, pos + 1, count)
 
-Inst(tid, v) == Fill(TypeCat[tid], tid, v, 1, 2 + (v % 2))     \* a bare array gets 2 or 3 cells
-Instances == {<<tid, v>> : tid \in 1..NTypes, v \in 1..NVal} \cup {<<tid, LargeV>> : tid \in LargeTypes}
+Inst(tid, v) == Fill(TypeCat[tid], tid, v, 1, IF v = EmptyV THEN 0 ELSE 2 + (v % 2))     \* a bare array gets 2 or 3 cells (0 in the empty set)
+Instances == {<<tid, v>> : tid \in 1..NTypes, v \in 1..NVal} \cup {<<tid, LargeV>> : tid \in LargeTypes} \cup {<<tid, EmptyV>> : tid \in EmptyTypes}
 =============================================================================
